@@ -205,12 +205,17 @@ def r3_backend(run, F):
 
 def r4_outdir(run, F):
     c = F.bin.bodies.get("compile_to_ir_using_alpha")
+    # by role: the out-dir parameter is the one of type Option<..PathBuf..>; the IR local is the one initialised from
+    # Compiler::generate_ir inside the module loop; the output path is the first argument of std::fs::write
+    outdir_params = [q.get("lid") for q in (c or {}).get("params", []) if "PathBuf" in str(F.bin.types[q["t"]]) and "Option" in str(F.bin.types[q["t"]])]
     ok = False
     detail = ""
+    write_path_lids = set()
     for n in walk(c["hir"]):
         if n.get("k") == "If":
             cond = hirq.unwrap_trivial(n["cond"])
-            if cond.get("k") == "LetExpr" and hirq.pat_key(cond["pat"]).endswith("Some") and any(x.get("res") == "out_dir" for x in walk(cond["init"])):
+            if cond.get("k") == "LetExpr" and hirq.pat_key(cond["pat"]).endswith("Some") and \
+                    any(x.get("k") == "Path" and x.get("lid") in outdir_params for x in walk(cond["init"])):
                 seq = []
                 for x in hirq.calls(n["then"]):
                     cn = hirq.callee(x) or ""
@@ -219,14 +224,17 @@ def r4_outdir(run, F):
                     elif cn == "std::fs::create_dir_all":
                         seq.append(("create_dir_all", x["l"]))
                     elif cn == "std::fs::write":
-                        seq.append(("write:%s" % hirq.local_name_of(hirq.unwrap_trivial(x["a"][1])), x["l"]))
+                        from rules import origins as _or
+                        ow = _or.origins(c["hir"], x["a"][1], c.get("params", ()))
+                        seq.append(("write:%s" % ("ir" if ("call", "alpha::Compiler::generate_ir") in ow else "?"), x["l"]))
+                        write_path_lids.add(hirq.unwrap_trivial(x["a"][0]).get("lid"))
                 names = [s[0] for s in sorted(seq, key=lambda s: s[1])]
                 detail = str(names)
                 ok = names == ["set_extension:pn.ll", "create_dir_all", "write:ir"]
     run.ob("R4-OUT-DIR", "per-module .pn.ll", ok, F.where(c), "under --out-dir every module's IR is written to <out_dir>/<module>.pn.ll: %s" % detail)
     # the file name is injective in the module path: out_dir + the whole path as given + ".pn.ll" (nothing dropped or rewritten)
-    lets_o = [n for n in walk(c["hir"]) if n.get("k") == "Let" and n["pat"].get("name") == "outputpath" and "init" in n]
-    run.require(len(lets_o) == 1, "compile_to_ir_using_alpha: `let outputpath` not found")
+    lets_o = [n for n in walk(c["hir"]) if n.get("k") == "Let" and n["pat"].get("lid") in write_path_lids and "init" in n]
+    run.require(len(lets_o) == 1, "compile_to_ir_using_alpha: the local holding the path given to std::fs::write was not found")
     init = lets_o[0]["init"]
     used = sorted(set((hirq.callee(x) or hirq.callee_decl(x) or x.get("name") or "?").split("::")[-1] for x in hirq.calls(init)))
     allowed = {"to_path_buf", "push", "clone", "set_extension", "join", "with_extension", "as_path", "as_ref"}
@@ -235,15 +243,17 @@ def r4_outdir(run, F):
     whole = False
     for x in pushes:
         a = hirq.unwrap_trivial(x["a"][0]) if x.get("a") else {}
-        names = [y.get("res") for y in walk(a) if y.get("k") == "Path" and y.get("rk") == "Local"]
+        locs = [y for y in walk(a) if y.get("k") == "Path" and y.get("rk") == "Local"]
         inner = [(hirq.callee(y) or y.get("name") or "").split("::")[-1] for y in hirq.calls(a)]
-        whole = whole or (names == ["filepath"] and all(i in ("clone", "as_path", "as_ref") for i in inner))
+        # by role: the module's own path, i.e. the first component of the (path, declarations) pair the module loop iterates over
+        from rules import origins as _or
+        is_module_path = len(locs) == 1 and ("tuplepos", 0) in _or.origins(c["hir"], locs[0], c.get("params", ()))
+        whole = whole or (is_module_path and all(i in ("clone", "as_path", "as_ref") for i in inner))
     run.ob("R4-OUT-DIR", "file name injective in the module path", whole and not extra, F.where(c, init),
            "the IR of module P goes to <out_dir>/P.pn.ll with P the whole path as given; dropping or rewriting components lets two modules "
            "share one file (the later silently overwrites the earlier): path operations %s, not reviewed: %s" % (used, extra))
     # `ir` is this iteration's generate_ir()
-    lets = [n for n in walk(c["hir"]) if n.get("k") == "Let" and n["pat"].get("name") == "ir"]
-    ok2 = len(lets) == 1 and any(hirq.callee(x) == "alpha::Compiler::generate_ir" for x in hirq.calls(lets[0]["init"]))
+    ok2 = "write:ir" in detail
     run.ob("R4-OUT-DIR", "ir = compiler.generate_ir()", ok2, F.where(c), "the text written is the module's own IR")
     # the write happens inside the per-module loop, after compile()
     cfg = mirq.CFG(c)
